@@ -121,9 +121,12 @@ def arith_atom(rng):
     def term():
         t = [num(rng.randint(0, 9))]
         for _ in range(rng.choice([0, 1, 1, 2])):
-            t += [sym(rng.choice(["*", "*", "+", "-", "/"])), num(rng.randint(1, 9))]
+            t += [sym(rng.choice(["*", "*", "+", "-", "/"]))]
+            if rng.random() < 0.25:
+                t += [sym("-")]                     # a sign after an operator: 1 - -1, 2 * -3 (two minus tokens may touch)
+            t += [num(rng.randint(1, 9))]
         return t
-    lhs = ([sym("-")] if rng.random() < 0.15 else []) + term()
+    lhs = ([sym("-")] * rng.choice([1, 1, 2]) if rng.random() < 0.2 else []) + term()
     return ("atom", tuple(lhs + [sym(rng.choice(["==", "!=", "<", ">", "<=", ">="]))] + term()))
 
 
@@ -216,10 +219,12 @@ def random_query(rng, kinds=None, values=None, n_entities=None, depth=3, n_preds
     for _ in range(n_preds):
         pname = fresh_ident(rng, used, ["isX", "p", "pred", "check", "p2", "has", "q", "notOnCreate", "regexLike", "ltZero", "ampersand", "copyOf"])
         arity = rng.choice([1, 1, 2]) if len(q.from_items) > 1 else 1
+        if rng.random() < 0.12:
+            arity = 0                   # no parameters: the body speaks of the FROM aliases directly, the call is `name()`
         pks = rng.sample([k for k, _ in q.from_items], min(arity, len(q.from_items)))
-        if q.preds and len(q.from_items) > 1 and rng.random() < 0.4:
+        if arity > 0 and [x for x in q.preds if x.params] and len(q.from_items) > 1 and rng.random() < 0.4:
             # an overload: the name and arity of an earlier predicate, other parameter kinds
-            o = rng.choice(q.preds)
+            o = rng.choice([x for x in q.preds if x.params])
             opts = [c for c in ([[k] for k, _ in q.from_items] if len(o.params) == 1 else [[a, b] for a, _ in q.from_items for b, _ in q.from_items if a != b])
                     if all([t for t, _ in x.params] != c for x in q.preds if x.name == o.name)]
             if opts:
@@ -241,6 +246,9 @@ def random_query(rng, kinds=None, values=None, n_entities=None, depth=3, n_preds
             params.append((k, fresh_ident(rng, pused)))
 
         def patom(params=params):
+            if not params:
+                k, a = rng.choice(q.from_items)
+                return accessor_atom(rng, a, k, values)
             if len(params) == 2 and rng.random() < 0.3:
                 return two_entity_atom(rng, params[0][1], params[0][0], params[1][1], params[1][0])
             t, n = rng.choice(params)
